@@ -157,6 +157,36 @@ def bboxRotateOld (bd : List (K × K)) (m c : List K) : Option (List (K × K)) :
     box2 [r x0 y0, r x1 y1]
   | _, _, _ => none
 
+
+/-! ### rotations of 3-D domains (`Rotate` with an explicit 3×3 matrix; the expression type `Dom` only has the
+    2-D rotation, so this is a function of the inner box) -/
+
+/-- axis-wise extreme coordinates of a list of points in space -/
+def box3 (l : List (K × K × K)) : Option (List (K × K)) :=
+  match span (l.map (·.1)), span (l.map (·.2.1)), span (l.map (·.2.2)) with
+  | some sx, some sy, some sz => some [sx, sy, sz]
+  | _, _, _ => none
+
+/-- image of a point under `q ↦ M (q − c) + c`, `M` row-major -/
+def rotPt3 (m c : List K) (x y z : K) : Option (K × K × K) :=
+  match m, c with
+  | [a11, a12, a13, a21, a22, a23, a31, a32, a33], [cx, cy, cz] =>
+    some (a11 * (x - cx) + a12 * (y - cy) + a13 * (z - cz) + cx,
+          a21 * (x - cx) + a22 * (y - cy) + a23 * (z - cz) + cy,
+          a31 * (x - cx) + a32 * (y - cy) + a33 * (z - cz) + cz)
+  | _, _ => none
+
+/-- `Rotate.bounding_box` in three dimensions: all eight corners of the inner box are rotated about `c`
+    (order of `itertools.product([min, max], repeat=3)`), extreme coordinates of the images -/
+def bboxRotate3 (bd : List (K × K)) (m c : List K) : Option (List (K × K)) :=
+  match bd with
+  | [(x0, x1), (y0, y1), (z0, z1)] =>
+    match mapOpt (fun (q : K × K × K) => rotPt3 m c q.1 q.2.1 q.2.2)
+        [(x0, y0, z0), (x0, y0, z1), (x0, y1, z0), (x0, y1, z1), (x1, y0, z0), (x1, y0, z1), (x1, y1, z0), (x1, y1, z1)] with
+    | some imgs => box3 imgs
+    | none => none
+  | _ => none
+
 /-! ### shape of the result for several parameter rows -/
 
 /-- does some motion of the expression depend on parameters?  Then `bounding_box` of that node
